@@ -117,6 +117,39 @@ add("C13", "fixed", "items-differ:for+limit-zero", "limit: 0 visited every item;
 add("C24", "fixed", "conc:worker-exception:RuntimeError", "ThreadSafeLRUCache.keys/values/items/__iter__ returned lazy iterators consumed outside the lock: RuntimeError 'OrderedDict mutated during iteration' under concurrent use",
     [{"kind": "stress", "seed": 424242, "threads": 8, "ops": 600, "cap": 3, "rounds": 2, "yield_p": 0.05}], "890d906")
 
+# ----------------------------------------------------------------------------- C22 fixed
+def c22(config, name):
+    return {"config": config, "name": name, "surrogate": "<S>" in name}
+
+
+add("C22", "fixed", "pkg:absolute:opened-outside-root", "PackageLoader joined an absolute template name onto the package path, which replaces it: get_template('<T>/outside/secret.liquid') read a file outside the package",
+    [c22("pkg:templates", "<T>/outside/secret.liquid"), c22("pkg:templates+more", "<T>/pkgs/vpkg22/secret.liquid"), c22("pkg:templates", "//<T>/outside/secret")], "b5f433b")
+add("C22", "fixed", "pkg:empty-or-dot:raises-ValueError", "PackageLoader: the names '', '.', '/' raised ValueError (empty name) from Path.with_suffix instead of TemplateNotFoundError",
+    [c22("pkg:templates", ""), c22("pkg:templates", "."), c22("pkg:templates", "/")], "b5f433b")
+add("C22", "fixed", "pkg:over-long:raises-OSError", "PackageLoader: a name component longer than the file system allows raised OSError from is_file instead of TemplateNotFoundError",
+    [c22("pkg:templates", "x" * 300), c22("pkg:templates+more", "sub/" + "y" * 5000)], "b5f433b")
+add("C22", "fixed", "fs:over-long:raises-OSError", "FileSystemLoader: a name component longer than the file system allows raised OSError from Path.exists instead of TemplateNotFoundError",
+    [c22("fs:ext=None:reject_symlinks=False", "x" * 300), c22("cfs:ext=.liquid:reject_symlinks=True", "sub/" + "y" * 5000)], "c5c5c60")
+
+# ----------------------------------------------------------------------------- C23
+def c23(kind, steps, keys=("t1", "t2"), auto_reload=True, capacity=2, env_globals=True):
+    return {"kind": kind, "keys": list(keys), "auto_reload": auto_reload, "capacity": capacity, "env_globals": env_globals, "steps": steps}
+
+
+def get(name, ns=None, via="none", is_async=False, g=None):
+    return {"op": "get", "name": name, "ns": ns, "ns_via": via, "async": is_async, "globals": g}
+
+
+add("C23", "open", "caching-fs:sync-hit-on-async-loaded-template:uptodate-is-coroutine",
+    "CachingFileSystemLoader with auto_reload: get_template_async('t1') then get_template('t1') raises LiquidError 'expected a boolean from uptodate, found coroutine' "
+    "(the template cached by load_async carries the coroutine function _uptodate_async, which the synchronous is_up_to_date cannot await); the non-caching loader serves both requests",
+    [c23("fs", [get("t1", is_async=True), get("t1")]), c23("nsfs", [get("t1", "A", "kwarg", True), get("t1", "A", "kwarg")], keys=("t1", "A/t1"))])
+add("C23", "fixed", "dict:stale-source-after-edit:sync", "CachingDictLoader / caching choice loader over dict loaders with auto_reload=True kept serving the first parsed version after the dictionary entry was replaced (DictLoader gave no uptodate callable)",
+    [c23("dict", [get("t1"), {"op": "edit", "key": "t1"}, get("t1")]), c23("choice", [get("t1", "A", "kwarg", True), {"op": "edit", "key": "A/t1"}, get("t1", "A", "kwarg", True)], keys=("t1", "A/t1")),
+     c23("nsdict", [get("t1", "B", "context"), {"op": "edit", "key": "B/t1"}, get("t1", "B", "context")], keys=("t1", "B/t1"))], "f7e95bd")
+add("C23", "fixed", "dict:globals-differ:request-without-globals:sync", "cache hit for a request without globals in an environment without globals returned the template still carrying the previous request's globals",
+    [c23("dict", [get("t1", g={"g": "G1"}), get("t1")], env_globals=False), c23("fs", [get("t1", is_async=True, g={"g": "G1"}), get("t1", is_async=True)], env_globals=False, auto_reload=False)], "9c60297")
+
 if __name__ == "__main__":
     # further entries are appended by tools/mkfindings.py from triaged replay files and kept in findings_extra.json
     extra_path = os.path.join(VERIF, "tools", "findings_extra.json")
